@@ -25,7 +25,7 @@ var RespFields = []Field{
 	{"accept", []string{"canon", "absent", "lower", "upper", "mixed", "padded", "otherkey", "27", "29", "case", "dup-same", "triple-same", "dup-conflict", "lastchar", "firstchar", "foldname"}},
 	{"protocol", []string{"absent", "a", "b", "c", "empty"}},
 	{"extensions", []string{"absent", "x", "x;p=1", "z", "malformed", "x, z", "x, y", "two-headers", "x;p=1;r=22, y", "x; a01=1; a02=2; a03=3; a04=4; a05=5; a06=6; a07=7; a08=8; a09=9; a10=10; a11=11; a12=12, y"}},
-	{"extra", []string{"none", "before", "between", "after", "kelvin"}},
+	{"extra", []string{"none", "before", "between", "after", "kelvin", "long-70000", "long-300000"}},
 	{"order", []string{"canonical", "reversed", "rotated"}},
 	{"lineend", []string{"CRLF", "LF"}},
 	{"trailing", []string{"0", "1", "7", "B", "B+1"}},
@@ -129,6 +129,13 @@ func (r Resp) Build(key string, B int) (headLen int, data []byte) {
 	}
 	var lines []hline
 	extra := hline{"X-Extra", "1, 2; 3"}
+	if x := r.V("extra"); strings.HasPrefix(x, "long-") {
+		n := 70000
+		if x == "long-300000" {
+			n = 300000
+		}
+		lines = append(lines, hline{"X-Extra", strings.Repeat("v", n)})
+	}
 	if r.V("extra") == "kelvin" {
 		// an unrelated header whose name equals a known one only under Unicode case folding
 		lines = append(lines, hline{"Sec-WebSoc\u212aet-Protocol", "zzz"})
